@@ -43,29 +43,18 @@ Probes == {id \in DOMAIN q : q[id].probe}
 (* ares_set_servers*: servers that stay keep their health and connections and take their new position;
    new ones start fresh; removed ones are destroyed, their connections closed and the queries in
    flight on them requeued with one more try (and no error of their own) *)
-RECURSIVE PosIn(_, _, _)
-PosIn(L, s, i) == IF i > Len(L) THEN 0 ELSE IF L[i] = s THEN i ELSE PosIn(L, s, i + 1)
-Dying == {s \in DOMAIN srv : srv[s].dying}
-(* order in which the library's server list (least failures first, then position) is walked *)
-Before(a, b) == srv[a].fails < srv[b].fails \/ (srv[a].fails = srv[b].fails /\ srv[a].idx < srv[b].idx)
-InflightOn(s) == {id \in DOMAIN q : q[id].st = "inflight" /\ q[id].srv = s}
+Dying == DyingIn(srv)
+InflightOn(s) == InflightOnIn(q, s)
 
 (* Servers that are no longer listed are destroyed one after the other in list order; destroying one closes its
    connections and requeues what was in flight on them -- possibly onto a server that is itself destroyed a moment
    later, and then requeued again.  A removed server therefore stays a member (marked dying) until the trace shows
    its connections being closed or the call returns. *)
 HSetServers(e) ==
-  LET L == e.list
-      keep == ToSet(L)
-      gone == (DOMAIN srv) \ keep
-      busy == \E id \in DOMAIN q : q[id].st = "inflight" /\ q[id].srv \in gone
-      all == IF busy THEN keep \cup gone ELSE keep
-      srv2 == [s \in all |-> IF s \in keep
-                              THEN (IF s \in DOMAIN srv THEN [srv[s] EXCEPT !.idx = PosIn(L, s, 1)]
-                                    ELSE [fails |-> 0, nextRetry |-> 0, m |-> EmptyMetrics, idx |-> PosIn(L, s, 1), dying |-> FALSE])
-                              ELSE [srv[s] EXCEPT !.dying = TRUE]]
+  LET srv2 == ListEdit(srv, q, e.list)
+      all == DOMAIN srv2
   IN
-  IF keep = {} \/ \E id \in DOMAIN q : q[id].st = "tosend" THEN OutOfScope
+  IF Len(e.list) = 0 \/ \E id \in DOMAIN q : q[id].st = "tosend" THEN OutOfScope
   ELSE /\ srv' = srv2
        /\ owedF' = [s \in all |-> IF s \in DOMAIN owedF THEN owedF[s] ELSE 0]
        /\ owedO' = [s \in all |-> IF s \in DOMAIN owedO THEN owedO[s] ELSE 0]
@@ -91,12 +80,11 @@ DyingTarget(e) ==
   ELSE 0
 
 DestroyStep(s) ==
-  LET D == {d \in Dying : d = s \/ (Before(d, s) /\ InflightOn(d) = {})}
-      n2 == (Cardinality(DOMAIN srv) - Cardinality(D)) * cfg.tries
-  IN /\ srv' = Without(srv, D)
-     /\ owedF' = Without(owedF, D) /\ owedO' = Without(owedO, D)
-     /\ q' = DropDoneProbes([id \in DOMAIN q |-> IF id \in InflightOn(s) THEN RequeuedN(q[id], n2) ELSE q[id]])
-     /\ UNCHANGED <<cfg, now, fdi, proc, oos, xvars>> /\ Acc
+  LET D == DestroySet(srv, q, s) IN
+  /\ srv' = Without(srv, D)
+  /\ owedF' = Without(owedF, D) /\ owedO' = Without(owedO, D)
+  /\ q' = DropDoneProbes(AfterDestroy(srv, q, s))
+  /\ UNCHANGED <<cfg, now, fdi, proc, oos, xvars>> /\ Acc
 
 (* a connection is closed: nothing may be left in flight on it; datagrams read from it but not yet processed are discarded *)
 HClose(e) ==
